@@ -913,3 +913,125 @@ Proof.
     rewrite run_w_app, C7. cbn [bind run_w]. rewrite A4, Q. reflexivity.
   - congruence.
 Qed.
+
+(* ------------------------------------------------------------------ Debug formatting *)
+
+Lemma sorted_length_bound : forall l lo hi, StronglySorted Z.lt l -> lo <= hi + 1 ->
+  (forall x, In x l -> lo <= x <= hi) -> Z.of_nat (length l) <= hi - lo + 1.
+Proof.
+  induction l as [|a t IH]; intros lo hi S H B; simpl length; [lia|].
+  assert (Ba : lo <= a <= hi) by (apply B; left; auto).
+  assert (Q : Z.of_nat (length t) <= hi - (a + 1) + 1).
+  { apply IH; [apply sorted_tail in S; auto|lia|].
+    intros x Hx. pose proof (sorted_head_lt a t x S Hx). pose proof (B x (or_intror Hx)). lia. }
+  lia.
+Qed.
+
+Definition low (r : ring) : Prop := forall x, active (r_las r) x -> x <= 125.
+
+Lemma upd_low : forall r sa da, wf r -> 0 <= sa <= 125 -> 0 <= da <= 128 -> low r -> low (upd r sa da).
+Proof.
+  intros r sa da W Hs Hd L x Hx. destruct (upd_fields r sa da) as [E _]. rewrite E in Hx.
+  apply active_las_after in Hx; auto; try lia. destruct Hx as [Q|[Q _]]; [lia|apply L; auto].
+Qed.
+
+Definition op_dbg_dom (o : op) : Prop :=
+  match o with
+  | OpW sa da => 0 <= sa /\ 0 <= da
+  | OpC => True
+  | OpN a => 0 <= a <= 125
+  | OpR a => True
+  end.
+
+Lemma step_low : forall r o r', wf r -> 0 <= r_ts r <= 125 -> low r -> op_dbg_dom o -> step r o = Ok r' ->
+  wf r' /\ r_ts r' = r_ts r /\ low r'.
+Proof.
+  intros r o r' W Ht L D E. destruct o as [sa da| |a|a]; simpl in E, D.
+  - destruct D as [D1 D2]. destruct (witness_total r sa da W D1 D2) as [q [Eq [Wq Tq]]].
+    rewrite Eq in E. inversion E; subst q. split; auto. split; auto.
+    destruct (witness_cases r sa da r' W D1 D2 Eq) as [[B Q]|[B Q]]; [subst; auto|].
+    unfold bad_addrb in B. apply orb_false_iff in B. destruct B as [B1 B2].
+    apply Z.ltb_ge in B1. apply Z.ltb_ge in B2.
+    assert (U : low (upd r sa da)) by (apply upd_low; auto; lia).
+    destruct (r_state r).
+    + subst r'. destruct (is_wrapb (sa, da)); auto.
+    + subst r'. destruct (is_wrapb (sa, da)); auto.
+    + destruct Q as [[_ Q]|[_ Q]]; subst r'; auto. destruct (is_wrapb (sa, da)); auto.
+    + subst r'. auto.
+  - inversion E; subst. auto.
+  - rewrite set_next_station_ok in E by (auto; lia). inversion E; subst r'. clear E.
+    set (r1 := mkRing (set_nth (r_las r) (Z.to_nat a) true) (r_state r) (r_ts r) (r_ns r) (r_ps r)).
+    assert (W1 : wf r1) by (unfold wf, r1; simpl; rewrite set_nth_length; exact W).
+    split; [apply upd_wf; auto|]. split; [reflexivity|].
+    apply upd_low; auto; try (simpl; lia).
+    intros x Hx. unfold r1, active in Hx. simpl in Hx. rewrite activeb_set in Hx by (rewrite W; lia).
+    destruct (Z.eqb_spec x a); [lia|apply L; auto].
+  - destruct (Z_le_dec 0 a) as [A1|A1]; [|rewrite remove_station_panics in E by lia; discriminate].
+    destruct (Z_lt_dec a 128) as [A2|A2]; [|rewrite remove_station_panics in E by lia; discriminate].
+    rewrite remove_station_ok in E by lia. inversion E; subst r'. clear E.
+    split; [unfold wf; simpl; rewrite set_nth_length; exact W|]. split; [reflexivity|].
+    intros x Hx. unfold active in Hx. simpl in Hx. rewrite activeb_set in Hx by (rewrite W; lia).
+    destruct (Z.eqb_spec x a); [discriminate|apply L; auto].
+Qed.
+
+Lemma debug_no_panic : forall ts ops r0 r, 0 <= ts <= 125 -> ring_new ts = Ok r0 ->
+  Forall op_dbg_dom ops -> run r0 ops = Ok r ->
+  debug_active r = Ok (las_ones (r_las r)).
+Proof.
+  intros ts ops r0 r Ht E0 F E.
+  destruct (ring_new_ok ts) as [q [Eq [W [T [_ [_ [_ O]]]]]]]; [lia|].
+  rewrite Eq in E0. inversion E0; subst q. clear E0.
+  assert (L0 : low r0).
+  { intros x Hx. apply In_las_ones in Hx. rewrite O in Hx. destruct Hx as [Q|[]]. lia. }
+  assert (G : wf r /\ r_ts r = r_ts r0 /\ low r).
+  { clear Eq O. revert r0 W T L0 E. induction ops as [|o t IH]; intros r0 W T L0 E; simpl in E.
+    - inversion E; subst. auto.
+    - inversion F as [|? ? Fo Ft]; subst.
+      destruct (step r0 o) as [r1| |] eqn:S1; try discriminate. cbn [bind] in E.
+      destruct (step_low r0 o r1 W) as [W1 [T1 L1]]; auto; try lia.
+      destruct (IH Ft r1 W1) as [A [B C]]; auto; try lia. split; auto. split; auto. lia. }
+  destruct G as [Wr [_ Lr]]. unfold debug_active.
+  assert (B : Z.of_nat (length (las_ones (r_las r))) <= 125 - 0 + 1).
+  { apply sorted_length_bound; [apply las_ones_sorted|lia|].
+    intros x Hx. apply In_las_ones in Hx. pose proof (active_range _ _ Hx). specialize (Lr x Hx). lia. }
+  destruct (Nat.leb_spec (length (las_ones (r_las r))) 127); [reflexivity|lia].
+Qed.
+
+(* the 128-station witness: Debug does panic when set_next_station is given 126 / 127 *)
+Lemma debug_panic_witness :
+  exists ops r0 r, ring_new 125 = Ok r0 /\ run r0 ops = Ok r /\ debug_active r = Panic SiteIndex.
+Proof.
+  exists ([OpN 127; OpN 126; OpC] ++ map (fun i => OpW (Z.of_nat i) (Z.of_nat i + 1)) (seq 0 125)).
+  destruct (ring_new 125) as [r0| |] eqn:E0; try (vm_compute in E0; discriminate).
+  destruct (run r0 ([OpN 127; OpN 126; OpC] ++ map (fun i => OpW (Z.of_nat i) (Z.of_nat i + 1)) (seq 0 125)))
+    as [r| |] eqn:E.
+  - exists r0, r. split; auto. split; auto. vm_compute in E0. inversion E0; subst r0.
+    vm_compute in E. inversion E; subst r. vm_compute. reflexivity.
+  - exfalso. vm_compute in E0. inversion E0; subst r0. vm_compute in E. discriminate.
+  - exfalso. vm_compute in E0. inversion E0; subst r0. vm_compute in E. discriminate.
+Qed.
+
+(* ------------------------------------------------------------------ no panic, collected *)
+
+Lemma no_panic_all : forall r, length (r_las r) = 128%nat ->
+  (forall sa da, 0 <= sa < 256 -> 0 <= da < 256 ->
+     exists r', witness r sa da = Ok r' /\ length (r_las r') = 128%nat /\ r_ts r' = r_ts r) /\
+  (0 <= r_ts r < 128 -> forall a, 0 <= a < 128 ->
+     (exists r', set_next_station r a = Ok r' /\ length (r_las r') = 128%nat /\ r_ts r' = r_ts r) /\
+     (exists r', remove_station r a = Ok r' /\ length (r_las r') = 128%nat /\ r_ts r' = r_ts r)) /\
+  (exists r', step r OpC = Ok r' /\ length (r_las r') = 128%nat /\ r_ts r' = r_ts r).
+Proof.
+  intros r W. split; [|split].
+  - intros sa da Hs Hd. apply witness_total; auto; lia.
+  - intros Ht a Ha. split.
+    + exact (step_total r (OpN a) W Ht Ha).
+    + exact (step_total r (OpR a) W Ht Ha).
+  - simpl. eexists. split; [reflexivity|]. split; [exact W|reflexivity].
+Qed.
+
+Lemma panics_outside : forall r a, ~ 0 <= a < 128 ->
+  ring_new a = Panic SiteIndex /\ set_next_station r a = Panic SiteIndex /\ remove_station r a = Panic SiteIndex.
+Proof.
+  intros r a H. split; [apply ring_new_panics; auto|].
+  split; [apply set_next_station_panics; auto|apply remove_station_panics; auto].
+Qed.
